@@ -41,7 +41,8 @@ Inductive ev :=
 | XInvalidate (id : N) (ret : bool)
 | XInvalidateExpired (ret : Z)
 | XLookupNonExpired (id : N) (found : bool)
-| XImport (id tag addr cmd : N) (lease : Z).   (* a previously used id registered again: Store, then MapCommand(tag, addr, cmd, id) *)
+| XImport (id tag addr cmd : N) (lease : Z)
+| XAnnounce (id tag addr : N) (valid : str).  (* storeClientSession for a post-auth ad announcing this ValidCommands string *)   (* a previously used id registered again: Store, then MapCommand(tag, addr, cmd, id) *)
 
 (* tables of tags, addresses, commands (decimal strings); session duration and lease announced by the servers *)
 Record tables := { t_tags : list str; t_addrs : list str; t_cmds : list str; t_dur : Z; t_lease : Z }.
@@ -60,7 +61,7 @@ Definition std_tables (tcp0 tcp1 : bool) : tables :=
                   else hx "3c31302e302e302e313a393631383f736f636b3d7363686564645f313233345f353637383e"%string;       (* <10.0.0.1:9618?sock=schedd_1234_5678> *)
                   if tcp1 then hx "7463702d6c6f6f706261636b3a31"%string
                   else hx "3c31302e302e302e313a393631383f736f636b3d7374617274645f313233345f393939393e"%string ];     (* <10.0.0.1:9618?sock=startd_1234_9999>: two daemons behind one shared port *)
-     t_cmds := [ hx "343231"%string; hx "3630303037"%string; hx "39"%string ];  (* 421 60007 9 *)
+     t_cmds := [ hx "343231"%string; hx "3630303037"%string; hx "39"%string; hx "30"%string ];  (* 421 60007 9 0 *)
      t_dur := 2100; t_lease := 950 |}.
 
 Definition nth_str (l : list str) (i : N) : str := nth (N.to_nat i) l [].
@@ -183,6 +184,11 @@ Definition step (tb : tables) (st : cache * Z) (e : ev) : option (cache * Z) :=
   | XLookupNonExpired id found =>
       let '(c', r) := lookup_nonexpired c now (sid_of id) in
       if Bool.eqb (match r with Some _ => true | None => false end) found then Some (c', now) else None
+  | XAnnounce id tagi addri valid =>
+      match full_of tb (SFullOk id valid true) with
+      | FOk fo => Some (store_client_session c now (nth_str (t_tags tb) tagi) (nth_str (t_addrs tb) addri) fo, now)
+      | FFail => None
+      end
   | XImport id tagi addri cmdi lease =>
       let tag := nth_str (t_tags tb) tagi in
       let addr := nth_str (t_addrs tb) addri in
